@@ -397,8 +397,26 @@ class BucketWriter:
         if self.throw_out_all_data:
             return False
 
-        # Make sure we're not conflicting with existing data:
+        self.check_write(offset, data)
         end = offset + len(data)
+        self._sharefile.write_share_data(offset, data)
+
+        self._already_written.set(True, offset, end)
+        self.ss.add_latency("write", self._clock.seconds() - start)
+        self.ss.count("write")
+        return self._is_finished()
+
+    def check_write(self, offset, data):  # type: (int, bytes) -> None
+        """
+        Raise ``ConflictingWriteError`` if writing data at the given offset
+        would conflict with data that was written earlier. Nothing is changed.
+        """
+        if self.throw_out_all_data:
+            return
+        end = offset + len(data)
+        if end > self._max_size:
+            raise DataTooLargeError(self._max_size, offset, len(data))
+        # Make sure we're not conflicting with existing data:
         for (chunk_start, chunk_stop, _) in self._already_written.ranges(offset, end):
             chunk_len = chunk_stop - chunk_start
             actual_chunk = self._sharefile.read_share_data(chunk_start, chunk_len)
@@ -407,12 +425,6 @@ class BucketWriter:
                 raise ConflictingWriteError(
                     "Chunk {}-{} doesn't match already written data.".format(chunk_start, chunk_stop)
                 )
-        self._sharefile.write_share_data(offset, data)
-
-        self._already_written.set(True, offset, end)
-        self.ss.add_latency("write", self._clock.seconds() - start)
-        self.ss.count("write")
-        return self._is_finished()
 
     def _is_finished(self):
         """
